@@ -751,7 +751,7 @@ def floordiv(a, b):
     # signed: floor(a/b) = (a - (a smod b)) sdiv b, exact, one bit wider (no overflow)
     w = max(_w(a), _w(b)) + 1
     A, B = _ext(a, w), _ext(b, w)
-    t = (A - z3.SMod(A, B)) / B
+    t = (A - (A % B)) / B  # z3py: % is bvsmod, / is bvsdiv
     m = max(abs(_lo(a)), abs(_hi(a)))
     return SymInt.mk(t, -m - 1, m)
 
@@ -767,7 +767,7 @@ def pymod(a, b):
         t = z3.URem(_ubits(a, w), _ubits(b, w))
         return SymInt.mk(z3.ZeroExt(1, t), 0, min(_hi(a), max(_hi(b) - 1, 0)))
     w = max(_w(a), _w(b))
-    t = z3.SMod(_ext(a, w), _ext(b, w))
+    t = _ext(a, w) % _ext(b, w)  # bvsmod: sign follows the divisor, as in Python
     return SymInt.mk(t, min(_lo(b) + 1, 0), max(_hi(b) - 1, 0))
 
 
